@@ -343,8 +343,12 @@ def _drive_sync(case, port, peer, rec):
         while len(view):
             if time.time() > t_end:
                 raise Inconclusive("watchdog while writing")
+            t_call = time.monotonic()
             try:
-                n = tr.bulk_write(bytes(view), 0.3 if case.get("peer_stall") else case.get("write_timeout"))
+                try:
+                    n = tr.bulk_write(bytes(view), 0.3 if case.get("peer_stall") else case.get("write_timeout"))
+                finally:
+                    rec["max_write_call_s"] = max(rec.get("max_write_call_s", 0.0), time.monotonic() - t_call)
             except L.exceptions.TcpTimeoutException:
                 if not case.get("peer_stall"):
                     raise
@@ -436,8 +440,12 @@ async def _drive_async(case, port, peer, rec):
         while len(view):
             if time.time() > t_end:
                 raise Inconclusive("watchdog while writing")
+            t_call = time.monotonic()
             try:
-                n = await tr.bulk_write(bytes(view), 0.3 if case.get("peer_stall") else case.get("write_timeout"))
+                try:
+                    n = await tr.bulk_write(bytes(view), 0.3 if case.get("peer_stall") else case.get("write_timeout"))
+                finally:
+                    rec["max_write_call_s"] = max(rec.get("max_write_call_s", 0.0), time.monotonic() - t_call)
             except L.exceptions.TcpTimeoutException:
                 if not case.get("peer_stall"):
                     raise
@@ -549,6 +557,10 @@ def judge_transport(case, rec):
         if rec.get("bad_write_count"):
             return Violation("write-count-out-of-range", "bulk_write returned %r for %d offered bytes" % rec["bad_write_count"])
         want_w = b"client-hello" + big_payload(case["big_write"])
+        if case.get("peer_stall", 0) >= 3.0 and case.get("connect_timeout") and rec.get("max_write_call_s", 0.0) > 2.4:
+            # (a socket connected with a timeout is non-blocking; connected with None it is a blocking socket and send() may legitimately wait)
+            return Violation("write-call-ignores-timeout", "the peer stopped reading for %.1f s; one bulk_write(..., 0.3) call lasted %.2f s instead of returning a count or raising TcpTimeoutException after about 0.3 s"
+                             % (case["peer_stall"], rec["max_write_call_s"]))
         if rec.get("write_timed_out"):
             # the write gave up (legitimately); whatever did reach the peer must be a clean prefix: nothing duplicated, nothing out of place
             if rec["peer_received"] != want_w[:len(rec["peer_received"])]:
@@ -566,6 +578,12 @@ def check_transport(case):
     use_real_clock()
     rec = run_transport(case, case["api"])
     v = judge_transport(case, rec)
+    if isinstance(v, Violation) and v.rule == "write-call-ignores-timeout":
+        # an upper wall-clock bound: confirm it on a second run before reporting
+        rec2 = run_transport(case, case["api"])
+        v2 = judge_transport(case, rec2)
+        if not (isinstance(v2, Violation) and v2.rule == v.rule):
+            rec, v = rec2, v2
     info = {"classes": [case["api"], "transport"], "nontrivial": len(rec.get("reads", [])) >= 2,
             "sample": {"api": case["api"], "frag_sizes": [len(f) for f, _ in case["frags"]], "pauses": [p for _, p in case["frags"]], "reqs": case["reqs"], "reads": rec.get("reads", [])[:8],
                        "idle": rec.get("idle")}}
@@ -812,6 +830,7 @@ def fixed_transport_cases():
         {"big_write": 1048576, "sndbuf": 4096, "peer_rcvbuf": 4096, "unread_inbound": True},
         {"big_write": 100000, "sndbuf": 4096, "peer_rcvbuf": 4096, "unread_inbound": True, "write_timeout": 2.0},
         {"big_write": 100000, "sndbuf": 4096, "peer_rcvbuf": 4096, "peer_stall": 0.8},
+        {"big_write": 1048576, "sndbuf": 4096, "peer_rcvbuf": 4096, "peer_stall": 3.0},
         {"peer_reset": True},
         {"peer_reset": True, "big_write": 100000},
         {"reconnect": True, "rcvbuf": 4096},
@@ -820,3 +839,113 @@ def fixed_transport_cases():
         for v in variants:
             out.append(dict(base, api=api, **v))
     return out
+
+
+# ============================================================================= convenience constructors (AdbDeviceTcp / AdbDeviceTcpAsync)
+def ctor_cases():
+    out = []
+    for api in ("sync", "async"):
+        for default in (0.3, 0.6):
+            for banner in (None, "ctor-banner"):
+                for mute in (True, False):
+                    out.append({"api": api, "default": default, "banner": banner, "mute": mute})
+    return out
+
+
+def check_ctor_case(case):
+    v, info = _check_ctor_case(case)
+    if v is not None and v.rule == "ctor-default-timeout-not-in-force":
+        # an upper wall-clock bound: confirm on a second run before reporting (a loaded machine may delay one run)
+        v2, info = _check_ctor_case(case)
+        if v2 is None:
+            info["classes"].append("late-once")
+            return None, info
+    return v, info
+
+
+def _check_ctor_case(case):
+    """AdbDeviceTcp(host, port, default_transport_timeout_s, banner) / AdbDeviceTcpAsync(...): the options given to the constructor are in force on the
+    socket -- a device that never answers makes connect() time out after about the default transport timeout (as the in-memory session does on the
+    virtual clock), the banner is the one announced, and a healthy session works."""
+    import socket as _socket
+    use_real_clock()
+    dcfg = {"mute": case["mute"], "services": {b"shell:echo hi": [b"hi\n"]}, "_verify": runner.fake_verify}
+    sims = []
+
+    def factory():
+        s = DeviceSim(dcfg, Tape(()), env.CLOCK.target)
+        sims.append(s)
+        return s
+    srv = SimServer(factory)
+    srv.start()
+    info = {"classes": [case["api"], "ctor", "mute" if case["mute"] else "healthy"], "nontrivial": True,
+            "sample": dict(case)}
+    rec = {}
+    try:
+        if case["api"] == "sync":
+            dev = L.adb_device.AdbDeviceTcp("127.0.0.1", srv.port, default_transport_timeout_s=case["default"], banner=case["banner"])
+            t0 = time.monotonic()
+            try:
+                rec["connect"] = dev.connect(read_timeout_s=8.0)
+            except Exception as e:  # noqa
+                rec["connect_exc"] = e
+            rec["elapsed"] = time.monotonic() - t0
+            if not case["mute"] and "connect_exc" not in rec:
+                try:
+                    rec["shell"] = dev.shell("echo hi")
+                except Exception as e:  # noqa
+                    rec["shell_exc"] = e
+            try:
+                dev.close()
+            except Exception:  # noqa
+                pass
+        else:
+            async def main():
+                dev = L.adb_device_async.AdbDeviceTcpAsync("127.0.0.1", srv.port, default_transport_timeout_s=case["default"], banner=case["banner"])
+                t0 = time.monotonic()
+                try:
+                    rec["connect"] = await asyncio.wait_for(dev.connect(read_timeout_s=8.0), WATCHDOG_S)
+                except asyncio.TimeoutError:
+                    rec["watchdog"] = True
+                except Exception as e:  # noqa
+                    rec["connect_exc"] = e
+                rec["elapsed"] = time.monotonic() - t0
+                if not case["mute"] and "connect_exc" not in rec and "watchdog" not in rec:
+                    try:
+                        rec["shell"] = await asyncio.wait_for(dev.shell("echo hi"), WATCHDOG_S)
+                    except Exception as e:  # noqa
+                        rec["shell_exc"] = e
+                try:
+                    await dev.close()
+                except Exception:  # noqa
+                    pass
+            asyncio.run(main())
+    finally:
+        srv.stop()
+        srv.join(timeout=3)
+    if rec.get("watchdog"):
+        return Violation("operation-hung", "connect() through %s did not finish within %d s" % ("AdbDeviceTcpAsync", WATCHDOG_S)), info
+    want_banner = (case["banner"] or _socket.gethostname()).encode("utf-8")
+    if sims and sims[0].host_cnxn is not None:
+        if sims[0].host_cnxn.data != b"host::" + want_banner + b"\0":
+            return Violation("ctor-banner-not-announced", "CNXN payload %r, expected banner %r" % (sims[0].host_cnxn.data, want_banner)), info
+    elif not sims:
+        return Violation("ctor-no-connection", "the device object never connected to 127.0.0.1:%d (%r)" % (srv.port, rec.get("connect_exc"))), info
+    if case["mute"]:
+        e = rec.get("connect_exc")
+        if e is None:
+            return Violation("connect-to-silent-device-returned", repr(rec.get("connect"))), info
+        if type(e).__name__ not in ("TcpTimeoutException", "AdbTimeoutError"):
+            return Violation("transport-raised", "connect() to a silent device raised %s: %s" % (type(e).__name__, e)), info
+        hi = case["default"] * 3 + 3.0
+        if rec["elapsed"] > hi:
+            return Violation("ctor-default-timeout-not-in-force", "default_transport_timeout_s=%.1f given to the constructor, but connect() to a silent device needed %.2f s to time out (in-memory: %.1f s)"
+                             % (case["default"], rec["elapsed"], case["default"])), info
+        if rec["elapsed"] < case["default"] * 0.8:
+            return Violation("timeout-too-early", "connect() gave up after %.3f s with a default transport timeout of %.1f s" % (rec["elapsed"], case["default"])), info
+    else:
+        if rec.get("connect_exc") is not None or rec.get("connect") is not True:
+            return Violation("session-differs-from-in-memory", "connect() -> %r / %r" % (rec.get("connect"), rec.get("connect_exc"))), info
+        if rec.get("shell") != "hi\n":
+            return Violation("session-differs-from-in-memory", "shell('echo hi') -> %r / %r" % (rec.get("shell"), rec.get("shell_exc"))), info
+    return None, info
